@@ -210,7 +210,7 @@ func checkC10(c *gramCase, b *gram.Built, r *vstat.Run) outcome {
 		return outcome{}
 	}
 	v1, v2 := reflect.ValueOf(a1.V), reflect.ValueOf(a2.V)
-	if p1, p2 := gram.Plain(v1), gram.Plain(v2); p1 != p2 {
+	if p1, p2 := gram.PlainNoElided(b.G, v1), gram.PlainNoElided(b.G, v2); p1 != p2 {
 		sig := "ast"
 		if gram.PlainMasked(v1) == gram.PlainMasked(v2) && (gram.HoldsElidedToken(b.G, v1) || gram.HoldsElidedToken(b.G, v2)) {
 			sig = "F2-token-capture-leading-elided"
